@@ -118,6 +118,8 @@ def run_C03(tier, seed):
                               note="K in 0..10, chunk size in 1..10, the three input lengths, validity and bit-length class of every member are symbolic")
     res = [a, b, d, c]
     if not Q(tier):
+        # a batch above the chunk limit, chunk by chunk through the trace specification (each chunk its own call, weights, final check)
+        res.append(stages.long_batch_stage("C03", "long-chunks", 262, seed, mode="RecoverAndVerify"))
         # the same orchestration for EVERY batch size and chunk size: an inductive invariant discharged by the proof system
         res.append(stages.tlaps_stage("C03", "BatchProof", "Spec => []C03", negative_edits=[
             ("IF hi < k THEN pc' = \"chunk\" /\\ res' = res ELSE pc' = \"done\" /\\ res' = \"Ok\"",
@@ -200,6 +202,11 @@ def run_C08(tier, seed):
     st = stages.trace_stage("C08", "response-pairs", sc3, seed, module="TraceTranscriptPair", consts={}, calls="verify", arith=False, per_file=40)
     res.append(st)
     res.append(stages.api_stage("C08", "batch", tier, seed, groups=("fm",)))
+    # long batches of distinct proofs (more members than the weight generator has 64-byte blocks, more than one chunk): every
+    # member of every chunk gets its own non-zero output of a generator built after all members of that chunk contributed
+    res.append(stages.long_batch_stage("C08", "long-weights", 66 if q else 262, seed))
+    if not q:
+        res.append(stages.long_batch_stage("C08", "long-arith", 70, seed, weights_only=False, mode="RecoverAndVerify"))
     return res
 
 
